@@ -220,7 +220,13 @@ def ob_di_readout(h):
                            add_target_from_results=lambda tid, res: recorded.__setitem__(tid, res))
     th, tc = h.real("hot_pinch"), h.real("cold_pinch")
     h.stub(di, "get_process_heat_cascade", fake_cascade)
-    h.stub(ProblemTable, "pinch_temperatures", lambda self, *a, **k: (th, tc))
+    pinch_seen = []
+
+    def pinch_stub(self, *a, **k):
+        # the pinch is a statement about the cascade AS COMPUTED: record what the table holds at the moment it is asked
+        pinch_seen.append((list(self.col[PT.T.value]), list(self.col[PT.H_NET.value])))
+        return (th, tc)
+    h.stub(ProblemTable, "pinch_temperatures", pinch_stub)
     h.stub(di, "get_additional_GCCs", lambda pt, **k: pt)
     h.stub(di, "get_utility_targets", lambda *a, **k: None)
     h.stub(di, "get_balanced_CC", lambda *a, **k: {})
@@ -235,6 +241,11 @@ def ob_di_readout(h):
     h.check("Qr_is_hot_duty_minus_Qc_as_computed", h.eq(tv["heat_recovery_target"], S[PT.H_HOT.value][0] - S[PT.H_NET.value][n - 1]))
     h.check("recovery_limit_from_the_real_table_as_computed", h.eq(tv["heat_recovery_limit"], R[PT.H_HOT.value][0] - R[PT.H_NET.value][n - 1]))
     h.check("pinches_are_those_of_the_shifted_table", And(h.eq(res["hot_pinch"], th), h.eq(res["cold_pinch"], tc)))
+    h.check("pinch_is_asked_once", len(pinch_seen) == 1)
+    if pinch_seen:
+        Tseen, Hseen = pinch_seen[0]
+        h.check("pinch_is_read_from_the_shifted_cascade_as_computed", And(*[h.eq(Hseen[i], S[PT.H_NET.value][i]) for i in range(n)], *[h.eq(Tseen[i], Ts[i]) for i in range(n)]),
+                note="the table the pinch is read from must hold the residuals as computed, not after display rounding or any later edit")
 
 
 def ob_factory(h):
